@@ -617,6 +617,31 @@ func (e *Env) call(n *SNode) SV {
 			e.fail("unknown type %q in typeid", n.Args[0].Name)
 		}
 		return svTerm(id)
+	case "isFileSeg":
+		// isFileSeg(s, f, p): the byte slice s holds exactly the file range [p, p+len(s)) of f,
+		// stated on content ids: bid(s) == fileSeg(f, p, len(s)). The abstraction's defining
+		// axiom  (forall k in [0,n): a[o+k] == fbyte(f,p+k)) ==> bytesIdOf(a,o,n) == fileSeg(f,p,n)
+		// is instantiated here for this slice in skolemised (quantifier-free) form.
+		a := e.eval(n.Args[0])
+		if a.V == nil || len(a.V.L) != 4 {
+			e.fail("isFileSeg needs a byte slice")
+		}
+		f, p0 := argT(1), argT(2)
+		sl := a.V.T.Underlying().(*types.Slice)
+		h := x.heapRead(e.st, "E:"+heapTypeName(sl.Elem()), ArraySort(IntSort, ArraySort(IntSort, IntSort)))
+		arr := B.Select(h, a.V.L[0])
+		off, ln := a.V.L[1], a.V.L[2]
+		bidF := B.DeclFunc("spec$bytesIdOf", []*Sort{ArraySort(IntSort, IntSort), IntSort, IntSort}, IntSort)
+		segF := B.DeclFunc("spec$fileSeg", []*Sort{IntSort, IntSort, IntSort}, IntSort)
+		fbF := B.DeclFunc("spec$fbyte", []*Sort{IntSort, IntSort}, IntSort)
+		eq := B.Eq(B.App(bidF, arr, off, ln), B.App(segF, f, p0, ln))
+		if !B.hasBoundVar(eq) && !x.typed[-17*eq.id-11] {
+			x.typed[-17*eq.id-11] = true
+			sk := B.Fresh("segwit", IntSort)
+			differs := B.And(B.Le(B.Int(0), sk), B.Lt(sk, ln), B.Neq(B.Select(arr, B.Add(off, sk)), B.App(fbF, f, B.Add(p0, sk))))
+			x.assumeGlobal(B.Or(differs, eq), "definition of fileSeg, instantiated")
+		}
+		return svTerm(eq)
 	case "strlt":
 		d := B.DeclFunc("strlt", []*Sort{StrSort, StrSort}, BoolSort)
 		return svTerm(B.App(d, argT(0), argT(1)))
